@@ -153,12 +153,12 @@ def _concatenate(lines):
     index = 0
     clines = []
     maxline = len(lines)
+    msg = ("Syntax error line {0}: Whitespace after the line "
+           "continuation character (\\).")
     while index < maxline:
         line = lines[index]
         # Raise an error if line has a whitespace after the line break
         if re.match(_BAD_CONTINUATION_TRAILING_WHITESPACE, line):
-            msg = ("Syntax error line {0}: Whitespace after the line "
-                   "continuation character (\\).")
             raise FileParseError(msg.format(index + 1))
         while line.endswith('\\'):
             if index == maxline - 1:
@@ -167,6 +167,11 @@ def _concatenate(lines):
                 line = line[:-1]
             else:
                 index += 1
+                # (same check for each line of a multi-line continuation)
+                if re.match(
+                    _BAD_CONTINUATION_TRAILING_WHITESPACE, lines[index]
+                ):
+                    raise FileParseError(msg.format(index + 1))
                 line = line[:-1] + lines[index]
         clines.append(line)
         index += 1
